@@ -659,30 +659,36 @@ package geom
 //@ func doubleArea3
 //@   floats real
 //@   requires stride >= 2 && offset == 0 && endssOK(endss, len(flatCoords), stride)
+//@   ensures res == trap3(cells(flatCoords), off(flatCoords), heapfor("int"), cells(endss), off(endss), stride, len(endss))
 //@   loop 1:
 //@     ghost lastp int = 0 - 1 step (len(endss[idx-1]) > 0 ? idx - 1 : lastp)
 //@     invariant 0 - 1 <= lastp && lastp < idx
 //@     invariant lastp == 0 - 1 ==> offset == 0 && emptyBetween(endss, 0 - 1, idx)
 //@     invariant lastp >= 0 ==> len(endss[lastp]) > 0 && offset == endss[lastp][len(endss[lastp])-1] && emptyBetween(endss, lastp, idx)
+//@     invariant offset == lastEnd3(heapfor("int"), cells(endss), off(endss), idx)
+//@     invariant doubleArea == trap3(cells(flatCoords), off(flatCoords), heapfor("int"), cells(endss), off(endss), stride, idx)
 
 //@ func length3
 //@   floats real
 //@   requires stride >= 2 && offset == 0 && endssOK(endss, len(flatCoords), stride)
+//@   ensures res == plen3(cells(flatCoords), off(flatCoords), heapfor("int"), cells(endss), off(endss), stride, len(endss))
 //@   loop 1:
 //@     ghost lastp int = 0 - 1 step (len(endss[idx-1]) > 0 ? idx - 1 : lastp)
 //@     invariant 0 - 1 <= lastp && lastp < idx
 //@     invariant lastp == 0 - 1 ==> offset == 0 && emptyBetween(endss, 0 - 1, idx)
 //@     invariant lastp >= 0 ==> len(endss[lastp]) > 0 && offset == endss[lastp][len(endss[lastp])-1] && emptyBetween(endss, lastp, idx)
+//@     invariant offset == lastEnd3(heapfor("int"), cells(endss), off(endss), idx)
+//@     invariant length == plen3(cells(flatCoords), off(flatCoords), heapfor("int"), cells(endss), off(endss), stride, idx)
 
 //@ func MultiPolygon.Area
 //@   floats real
 //@   requires wf3(g) && g.stride >= 2
-//@   ensures true
+//@   ensures res == trap3(cells(g.flatCoords), off(g.flatCoords), heapfor("int"), cells(g.endss), off(g.endss), g.stride, len(g.endss)) / 2.0
 
 //@ func MultiPolygon.Length
 //@   floats real
 //@   requires wf3(g) && g.stride >= 2
-//@   ensures true
+//@   ensures res == plen3(cells(g.flatCoords), off(g.flatCoords), heapfor("int"), cells(g.endss), off(g.endss), g.stride, len(g.endss))
 
 // ---------------------------------------------------------------------------
 // C08: Bounds
